@@ -47,6 +47,20 @@ if mode == "neutral3":
   - the state machine built from a class-level STATES tuple, mixin state classes, REFUSALS tables; dispatch tables keyed by QoS; sentinel objects; work lists of (method, request) pairs; generators and itertools.chain over the windows; a collected set of identifiers in use; a priming-read framing loop with a `_frameSize()` helper; `iter(f, None)`.
 Ideas in other directions (only where provably equivalent): reorganise *where* a decision is taken (e.g. compute a flag once and pass it down, or push a test into the callee); replace a loop by recursion-free helper calls per registry or the reverse; use `dataclass`-free small named tuples for constant tables; early `continue` instead of nested ifs; `next(iter(...), None)`; `dict.setdefault` / `collections.OrderedDict` only where order is provably unaffected; splitting `doConnect`/`connectionLost`/`buildProtocol`/`makeId` into phases with differently shaped guards; renaming private attributes consistently; swapping which of two provably equal values is used; hoisting or sinking statements across independent statements; turning boolean expressions around (De Morgan, comparison flipped with operands swapped); replacing `len(x) > 0` style tests by truthiness where provably equivalent; integer arithmetic rewritten (`% 65536` <-> `& 0xFFFF`, `x or 1`, `max(x, 1)` only where equal).
 """
+if mode == "neutral4":
+    mode = "neutral"
+    EXTRA = """IMPORTANT - be original: three earlier rounds of refactorings of this library already used the following reshapes, so do NOT make them the core of yours (they may appear incidentally); look for DIFFERENT, equally legitimate ways a maintainer might restructure the code:
+  - merged alarm-cancelling loops, `.items()`/`.values()`/`.pop()` swaps, `_failWindow`/`_disarm` helpers; try/except KeyError <-> `in` test <-> `dict.get`; closures <-> bound methods; handleCONNACK split into helpers; `while a and b` <-> `while a: if not b: break`; local aliases and @property accessors for `self.factory.windowX[self.addr]`; `_transmit`/`_send`/`_makeRelease` helpers;
+  - in pdu.py: base classes / template methods, class constants for the first byte, `_stripFixedHeader`, divmod/shift variants of the integer primitives, comprehensions building the payload, position-based decoders (`pos += k`), namedtuple layout tables;
+  - state machine built from tables, mixins, REFUSALS tables, dispatch tables keyed by QoS, sentinel objects, work lists, generators / itertools.chain over the windows, `next(genexp, default)`, for-else loops, priming-read framing loop.
+Ideas in other directions (only where provably equivalent) - housekeeping code is a good place to look:
+  - how timer handles are looked after: a small helper that cancels a handle AND clears the attribute that holds it (used wherever both happen today), a helper that stops the keepalive machinery, `handle, self.x = self.x, None` swaps before cancelling, testing `is not None` instead of truthiness where the value can only be None or a handle;
+  - how the protocol changes state: a `_enter(state)` / `_becomeIdle()` helper, assigning the state through a local, computing the next state in a conditional expression;
+  - how the parameters of a CONNECT are remembered (one helper, tuple assignment, reading them back from the pending request object where provably the same object);
+  - how "a slot became free" is reacted to (a `_slotFreed()` helper shared by the acknowledgement handlers, a guard "anything waiting?" in front of the refill, the refill called from a `finally`-free common tail);
+  - in pdu.py: loop conditions written as `len(rest) > 0` / `rest != b''` style tests where provably equivalent, explicit `errors='strict'` / `codecs.decode`, `bytes.decode` on a `bytes(...)` copy, `int.from_bytes` / `int.to_bytes` for the 16-bit primitives, `struct.pack('>H')` / `struct.unpack_from`;
+  - arithmetic and comparisons turned around; `not (a and b)` <-> `not a or not b`; chained comparisons split; `elif` ladders reordered when the tests are mutually exclusive; small private predicates (`_isPersistent()`, `_windowHasRoom()`), class-level constants for magic numbers (10 s default timeout, 0.1 s notification delay, 65535).
+"""
 if mode == "break":
     used = []
     for f in sorted(glob.glob("/verif/seeded/%s-*/meta.json" % pid)):
